@@ -135,9 +135,17 @@ func (s *state) unmarshal(data []byte, fixItem fix.Item) error {
 		}
 
 		cnt := noKv.Value.Value().(int)
-		startNoTag := bytes.Index(data, append([]byte(noKv.Key), '='))
-		if startNoTag == -1 {
-			return nil
+
+		// The count field is looked up the same way scanKeyValue found it:
+		// at the start of the data or right after a delimiter.
+		noTagQ := append([]byte(noKv.Key), '=')
+		startNoTag := 0
+		if !bytes.HasPrefix(data, noTagQ) {
+			startNoTag = bytes.Index(data, append([]byte{fix.Delimiter[0]}, noTagQ...))
+			if startNoTag == -1 {
+				return nil
+			}
+			startNoTag++ // skip the delimiter
 		}
 
 		startFirstFieldTag := bytes.Index(data[startNoTag:], fix.Delimiter)
